@@ -235,6 +235,74 @@ def validate_obs(rep, wd, recs, name, key_of):
     return ok
 
 
+def step_traces(rep, wd, cases, rng, n, key_prefix="pptrace"):
+    """I->S at the grain of the line loop: builds of enumerated sources with the ppstep hook on, validated against PpCore.tla by
+    PpTrace.tla (control state after every line: pending newline, directive pending, tail pending, pass mode, tags)"""
+    pick = rng.sample(cases, min(n, len(cases)))
+    vcases, meta = [], []
+    for i, c in enumerate(pick):
+        le = rng.choice(["\n", "\r\n"]) if c["src"] else "\n"
+        tr = rng.random() < 0.5
+        vcases.append(make_case(f"t{i}", c["src"], le, tr, log_pp=True))
+        meta.append((c, le, tr))
+    res = vh_cases(vcases, wd, key_prefix)
+    recs = []
+    for (c, le, tr), r in zip(meta, res):
+        st = r["steps"][0]
+        if st["verdict"] in ("panic", "hang"):
+            continue
+        recs.append(dict(event="case", le=le, tr=tr, src=c["src"]))
+        for e in st.get("events", []):
+            if e.get("f") != "s.txt.txtpp":
+                continue
+            if e["e"] == "begin":
+                recs.append(dict(event="pass", first=e["first"]))
+            elif e["e"] == "ppstep":
+                recs.append(dict(event="step", input="<null>" if e["input"] is None else e["input"],
+                                 wrote="<null>" if e["wrote"] is None else e["wrote"], addnl=e["addnl"], indir=e["indir"],
+                                 tail=e["tail"], mode=e["mode"], tags=e["tags"]))
+            elif e["e"] == "end":
+                recs.append(dict(event="result", r=e["r"]))
+    chunks, cur = [], []
+    for e in recs:
+        if e["event"] == "case" and len(cur) > 1500:
+            chunks.append(cur)
+            cur = []
+        cur.append(e)
+    if cur:
+        chunks.append(cur)
+
+    def val(ic):
+        i, chunk = ic
+        tf = os.path.join(wd, f"{key_prefix}-{i}.ndjson")
+        with open(tf, "w") as f:
+            for e in chunk:
+                f.write(json.dumps({k: v for k, v in e.items() if k != "src"}) + "\n")
+        cfg = os.path.join(wd, f"{key_prefix}.cfg")
+        open(cfg, "w").write(PPOBS_CFG)
+        return chunk, run_tlc("PpTrace.tla", cfg, f"{key_prefix}-{i}", workers=1, timeout=3600, env_extra={"TRACE": tf},
+                              java_opts="-Xss1g -Xmx3g -Dtlc2.tool.queue.IStateQueue=StateDeque", check=False)
+    with cf.ThreadPoolExecutor(max_workers=12) as ex:
+        vals = list(ex.map(val, enumerate(chunks)))
+    ok_events = 0
+    for chunk, r in vals:
+        if r["ok"]:
+            ok_events += len(chunk)
+            continue
+        m = re.search(r'TRACE REJECTED at event",\s*(\d+)', r["out"])
+        if not m:
+            raise ToolError("PpTrace validation broke:\n" + r["out"][-3000:])
+        k = int(m.group(1))
+        ok_events += k - 1
+        j = k - 1
+        while j > 0 and chunk[j]["event"] != "case":
+            j -= 1
+        rep.violation(f"pptrace:{json.dumps(chunk[j].get('src'))}", f"line-loop step of the real preprocessor is not the step PpCore.tla takes: {chunk[k - 1]} "
+                      f"[source lines {chunk[j].get('src')} le={chunk[j]['le']!r} trailing={chunk[j]['tr']}; steps before: {chunk[j + 1:k - 1][-3:]}]",
+                      dict(case=chunk[j], steps=chunk[j + 1:k]))
+    return len(pick), ok_events
+
+
 def catalogue_from(cases):
     cat = {}
     for c in cases:
@@ -323,8 +391,10 @@ def check_c01():
     sources = random_sources(rng, n_obs, cat)
     recs = observe(rng, wd, sources, "obs", [("\n", True, True), ("\r\n", False, True), ("\n", True, False)])
     validated = validate_obs(rep, wd, recs, "ppobs", lambda e: f"obs:{json.dumps(e['src'])}|{e['le']!r}|{e['tr']}")
+    n_traced, step_events = step_traces(rep, wd, cases, rng, 4000 if quick else 40000)
     rep.coverage.update(dict(
-        states=states, transitions=states, traces_validated_against_impl=validated,
+        states=states, transitions=states, traces_validated_against_impl=validated + n_traced,
+        line_loop_traces_validated=n_traced, line_loop_events_validated=step_events,
         sources_enumerated=len(cases), builds_compared=executed, cli_builds=len(cli_idx),
         abstract_classes_exercised=len(classes), max_source_lines=maxlen, catalogue_lines=NL,
         exhaustive=True,
